@@ -1357,6 +1357,8 @@ class Interp:
         if a is None or b is None:
             other = b if a is None else a
             return self.is_none(other)
+        if isinstance(a, Opaque) and isinstance(b, Opaque) and a is not b and getattr(a, "distinct", False) and getattr(b, "distinct", False):
+            return False  # two entities the contract declares to be different objects
         if self.lenient and (isinstance(a, Opaque) or isinstance(b, Opaque)) and a is not b:
             if isinstance(a, (bool, enum.Enum, str, int)) or isinstance(b, (bool, enum.Enum, str, int)) or (isinstance(a, Opaque) and isinstance(b, Opaque)):
                 return self.opaque_bool(("is", id(a) if isinstance(a, Opaque) else repr(a), id(b) if isinstance(b, Opaque) else repr(b)), "is?")
